@@ -992,6 +992,14 @@ func (f *frame) applyCall(abs string, callee *ssa.Function, args, binds []*sym, 
 		res = f.inlineCall(callee, args, binds, st, reach, rt)
 	case c == nil && callee == nil && f.funcSetCall(abs, args, st, reach, pos, rt) != nil:
 		res = f.lastFuncSetResult
+	case c == nil && valueOnlyLibrary(callee):
+		// a library function of a side-effect-free package that takes nothing but values: it cannot reach the
+		// modelled state; its result is unconstrained
+		vc.w.assumedUsed["default: functions of strings, strconv, unicode, math, path, path/filepath (pure part), errors, html, net/url, encoding/hex, encoding/base64 and time (clock reads and value methods) whose receiver and parameters are plain values leave the modelled state unchanged; results unconstrained"] = true
+		for _, a := range args {
+			f.symTerm(a)
+		}
+		res = f.freshOf(rt, "r_"+shortName(rel), st, reach)
 	case c == nil:
 		// unknown callee: everything may change
 		if vc.w.notesOn() {
